@@ -44,6 +44,12 @@ CHECKS = {
             '{200,400,401,405}, no escaping exception and the task finished when the kernel is quiescent at now+ping_interval+ping_timeout+1.',
             'Trusted: CrossHair, z3, the simulated environment (termination is judged on the virtual clock under cooperative scheduling). '
             'Known finding F6 (close(wait=True) never returns for sessions not on WebSocket) is waived for the listed state classes only.', '§3 C15'),
+    'C14': (SIM + '; symbolic integers for the declared Content-Length (unbounded on WSGI), the configured limit and packet counts; a recording body reader; frames compared against the symbolic limit on WebSocket-first, upgraded and mid-handshake sessions',
+            'For every declared length / limit / frame length / packet count inside the stated ranges: nothing from an oversize body or frame '
+            'reaches a handler, the reader is never asked for more than min(declared, limit) bytes (WSGI), bodies and frames of exactly the '
+            'limit are accepted, oversize input ends the session, at most 16 packets of a body are processed.',
+            'Trusted: CrossHair, z3, the simulated environment. The limit ranges over 1..MAXM because the OPEN packet renders it in decimal '
+            '(str of an unbounded symbolic int is not exhaustible). Known finding F6 waived for the oversize-POST-never-completes state classes.', '§3 C14'),
 }
 
 NOT_BUILT = 'check not built yet in this round (see DESIGN.md §8 build order); not claimed until it runs'
